@@ -1,9 +1,37 @@
 (** C11 — a conflict-free LR table accepts exactly L(G) and yields a valid derivation.
-    (stage-1 placeholder: the theorems follow in C11/Proofs*.v) *)
+    Statements only; proofs live in C11/Proofs*.v.
+
+    Design (translation validation): the Go constructions (SLR, LALR, canonical LR) are not
+    trusted.  Every table they build is dumped by the harness and the boolean certificate
+    [table_ok] (and [term_ok]) below is evaluated on it by the extracted code on every run.
+    The theorems here say what a certified table guarantees for the driver
+    lr.Parser.Parse / ParseAndBuildAST, for every grammar, table and input. *)
 From Coq Require Import List ZArith.
 From Algo.Grammar Require Import CFG.
-From Algo.C11 Require Import Model.
+From Algo.C11 Require Import Model Spec Proofs ProofsOracle.
 Import ListNotations.
+
+(** Soundness of the driver over any certified table: if [Parse] accepts [w] then [w] is a
+    sentence of [G], the productions passed to the production callback are a rightmost
+    derivation of [w] in reverse, and the tree built by [ParseAndBuildAST] is a parse tree of
+    [G] rooted at the start symbol with yield [w] whose internal nodes are exactly the emitted
+    productions (post-order). *)
+Theorem C11_driver_sound :
+  forall (G : gram) (tbl : table) (lbl : list (list sym)) (fuel : nat) (w : list nat) (evs : list event),
+    table_ok G tbl lbl = true ->
+    parse fuel tbl w = Accepted evs ->
+    L G w /\
+    rightmost_reverse G (prods_of evs) w /\
+    wf_tree G (ast_of evs) /\ root (ast_of evs) = Nt (start G) /\
+    yield (ast_of evs) = map Some w /\
+    postorder (ast_of evs) = prods_of evs.
+Proof. intros G tbl lbl fuel w evs OK H. exact (driver_sound G tbl lbl OK w fuel evs H). Qed.
+
+(** The membership oracle used for the completeness search never lists a non-sentence. *)
+Theorem C11_oracle_sound :
+  forall (G : gram) (fuel n : nat) (l : list (list nat)) (w : list nat),
+    lang_upto fuel G n = Some l -> mem_str w l = true -> L G w.
+Proof. intros G fuel n l w. apply lang_upto_sound. Qed.
 
 (** Non-vacuity: the SLR table that parser/lr/simple builds for S -> a b a | S S a
     (a = 0, b = 1, S = 18) accepts "aba" and "abaabaa" and rejects "abaa". *)
@@ -23,3 +51,6 @@ Example C11_example :
   (match parse 100 ex_tbl [0;1;0;0] with Rejected _ _ => true | _ => false end) = true /\
   (match parse 100 ex_tbl [0;1;0;0;1;0;0] with Accepted evs => prods_of evs | _ => [] end) = [ex_p1; ex_p1; ex_p2].
 Proof. vm_compute. repeat split. Qed.
+
+Print Assumptions C11_driver_sound.
+Print Assumptions C11_oracle_sound.
